@@ -99,7 +99,7 @@ func sceneModuleCall() {
 		chk("C04 C03 C14", vf.And(after.Deposit.AmountOf(Denom).Equal(wantDep), after.Available == wantAvail), "malformed-module-answer-slashes-the-provider-once")
 	}
 	chk("C08 C11", !k.IsRequestActive(ctx, rid), "module-call-request-answered-in-the-transaction")
-	tax := sdk.NewDecFromInt(stamped).Mul(k.ServiceFeeTax(ctx)).TruncateInt()
+	tax := sdk.NewDecFromInt(stamped).Mul(vf.Params(ctx).ServiceFeeTax).TruncateInt()
 	if answer >= 2 { // malformed output: refund and slash
 		chk("C02 C01", vf.All(paid.IsZero(), escD.IsZero(), earned.IsZero()), "malformed-module-answer-refunds-the-fee")
 	} else {
